@@ -3,6 +3,7 @@ CONSTANTS
   Reseed = TRUE
   AddCotangent = TRUE
   UseBckOptions = TRUE
+  InheritFwd = TRUE
 SPECIFICATION TSpec
 CONSTRAINT Prog
 POSTCONDITION Post
